@@ -26,9 +26,9 @@ import subprocess
 import sys
 import time
 import urllib.parse
-from decimal import Decimal
 
-from ..engine import Part, Fail, Inconclusive, main, canon, h, TARGET
+
+from ..engine import Part, Fail, Inconclusive, main, canon, TARGET
 from ..oracles import c18_json as J
 from ..oracles import c18_models as CM
 from ..oracles import workspace_ref as WR
@@ -872,6 +872,15 @@ def fault_histories():
                        ["add", "B"], ["fault", name], ["tck", "a", CM.INVOCABLE]]}
 
 
+def finding_histories():
+    """minimal histories of the workspace findings (open or fixed), judged on every run"""
+    yield {"ops": [["add", "A"], ["replace", "A2"], ["deploy"], ["eval", "a", CM.INVOCABLE]]}          # replace-calls-add
+    yield {"ops": [["add", "B"], ["replace", "A"]]}
+    yield {"ops": [["add", "A"], ["remove", "ns1", "b"], ["add", "C"]]}                                # remove drift (C17), fixed 5c19eae
+    yield {"ops": [["add", "A"], ["remove", "ns2", "a"], ["add", "B"]]}
+    yield {"ops": [["add", "B"], ["add", "C"], ["remove", "ns1", "a"], ["deploy"], ["eval", "b", CM.INVOCABLE], ["eval", "a", CM.INVOCABLE]]}
+
+
 def send_op(srv, op, timeout=None):
     k = op[0]
     H = srv.http
@@ -888,11 +897,43 @@ def send_op(srv, op, timeout=None):
     if k == "info":
         return H.request("GET", "/system/info", timeout=timeout)
     if k == "fault":
-        method, path, headers, body, _ = FAULTS[op[1]]
+        method, path, headers, body, expect = FAULTS[op[1]]
+        if expect == "errors-or-silence":
+            H.close()
+            return send_oversized(srv.port, method, path, headers, body, timeout or H.timeout)
         rec = H.request(method, path, body=body, headers=headers, timeout=timeout)
         H.close()   # the server may answer a malformed request without reading its body and then reset the connection
         return rec
     raise ValueError(op)
+
+
+def send_oversized(port, method, path, headers, body, timeout):
+    """An upload above the limit on its own connection. The declared Content-Length alone lets the server answer, and it
+    then stops reading (a client that insists on sending everything blocks until the server's 5 s shutdown timer): send
+    the head and the first 64 KiB, take the answer if it comes within a second, otherwise send the rest and wait."""
+    import socket
+    try:
+        sock = socket.create_connection(("127.0.0.1", port), timeout=timeout)
+    except OSError as e:
+        return {"noanswer": "connect: %r" % (e,)}
+    try:
+        head = ["%s %s HTTP/1.1" % (method, path), "Host: 127.0.0.1:%d" % port, "Content-Length: %d" % len(body), "Connection: close"]
+        head += ["%s: %s" % kv for kv in (headers or {}).items()]
+        sock.sendall(("\r\n".join(head) + "\r\n\r\n").encode("ascii") + body[:65536])
+        r, _, _ = select.select([sock], [], [], 1.0)
+        if not r:
+            sock.sendall(body[65536:])
+        resp = http.client.HTTPResponse(sock, method=method)
+        resp.begin()
+        data = resp.read()
+        return {"status": resp.status, "ctype": resp.getheader("content-type"), "body": data}
+    except (OSError, http.client.HTTPException) as e:
+        return {"noanswer": repr(e)}
+    finally:
+        try:
+            sock.close()
+        except OSError:
+            pass
 
 
 def predict(model, op):
@@ -1130,9 +1171,10 @@ def run(ctx):
         ctx.enumerate(ctx.p_corners, echo_corners(), batch=100, name="echo corner values (every control character, special keys, number shapes)",
                       exhaustive=True)
         ctx.enumerate(ctx.p_faults, fault_histories(), batch=1, name="every malformed request of the table between valid requests", exhaustive=True)
-        ctx.forall(ctx.p_echo, ctx.scale(4000, 300000), batch=200)
-        ctx.forall(ctx.p_tck, ctx.scale(2500, 150000), batch=1)
-        ctx.forall(ctx.p_history, ctx.scale(1500, 100000), batch=1)
+        ctx.enumerate(ctx.p_history, finding_histories(), batch=1, name="minimal histories of the workspace findings", exhaustive=True)
+        ctx.forall(ctx.p_echo, ctx.scale(8000, 900000), batch=200)
+        ctx.forall(ctx.p_tck, ctx.scale(5000, 450000), batch=1)
+        ctx.forall(ctx.p_history, ctx.scale(4000, 300000), batch=1)
         s = getattr(ctx, "_c18_server", None)
         if s is not None and s.http is not None:
             ctx.extra["http_requests"] = s.http.requests
